@@ -40,6 +40,12 @@ def _cb_new_node(s, a):
     # a callback that returns a NEW call node (same content) instead of the one it was handed
     return s, _ast.Call(func=a.func, args=list(a.args), keywords=list(a.keywords))
 T = TypeVar('T'); U = TypeVar('U'); K = TypeVar('K'); V = TypeVar('V')
+# functions registered for use in queries under names a lambda may well give its parameter (the parameter is what the name means there)
+from func_adl import func_adl_callable
+@func_adl_callable()
+def j(a: float = 1.0) -> float: ...
+@func_adl_callable()
+def x(a: float = 1.0) -> float: ...
 class MyIter(Iterable[T]):
     def own_first(self) -> T: ...
     def size(self) -> int: ...
@@ -681,6 +687,20 @@ def shard_main(ctx):
         async def execute_result_async(self, a, title=None):
             return a
 
+    if ctx.shard in (0, 3):
+        # a filter that is no truth value is refused wherever the Where is written - also inside the DEFAULT value of a parameter of a
+        # nested / stage lambda (followed since the defaults are followed at all)
+        for text in ("lambda e: e.jets().Select(lambda j, *, n=e.jets().Where(lambda k: k.pt()).Count(): j.pt() / n)",
+                     "lambda e: e.jets().Where(lambda j, n=e.jets().Where(lambda k: k.ntrk()).Count(): j.pt() > n).Count()"):
+            ctx.case("where-nonbool-in-default:" + text, True)
+            ctx.count("non-boolean-Where-inside-a-default")
+            try:
+                DS(NS["Event"]).Select(text)
+                ctx.violation("non-boolean-Where-accepted:inside-a-default", f"{text}: a Where whose filter is a number was accepted inside a default value", {"text": text})
+            except ValueError:
+                pass
+            except Exception as e:
+                ctx.violation(f"exc:{type(e).__name__}:where-in-default", f"{text}: {type(e).__name__}: {str(e)[:160]}", {"text": text})
     late_at = 150 if ctx.tier != "thorough" else 3000
     for i in range(N_CASES[ctx.tier]):
         if ctx.out_of_time():
